@@ -53,7 +53,7 @@ class PQMachine:
         model = {}
         for op in hist:
             self._apply(pq, model, op)
-        return [pq, model]
+        return [pq, model, list(hist)]
 
     @staticmethod
     def _apply(pq, model, op):
@@ -74,7 +74,7 @@ class PQMachine:
         raise ValueError(op)
 
     def enabled(self, st):
-        pq, model = st
+        pq, model = st[0], st[1]
         ops = []
         pushed = False
         for it in self.items:
@@ -92,7 +92,8 @@ class PQMachine:
         return ops
 
     def step(self, st, op):
-        pq, model = st
+        pq, model = st[0], st[1]
+        st[2].append(op)
         viols = []
         before = dict(model)
         if op[0] == "pop":
@@ -130,8 +131,25 @@ class PQMachine:
         heap, pos = st[0]._verif_state()
         return (tuple(heap), tuple(sorted(pos.items())))
 
+    def drain(self, hist):
+        """pop until empty on a fresh replay: judged behaviour (non-increasing scores, exactly the queued items)"""
+        pq, model, _ = self.replay(tuple(hist))
+        want = sorted((_key(s) for s in model.values()), reverse=True)
+        got = []
+        items = set()
+        try:
+            while not pq.is_empty():
+                score, item = pq.pop()
+                got.append(_key(score))
+                items.add(item)
+        except Exception as e:  # noqa
+            return f"drain raised {e!r}"
+        if got != want or items != set(model):
+            return f"draining the queue yields scores {got} (items {sorted(items)}), queued were {want} (items {sorted(model)})"
+        return None
+
     def invariants(self, st):
-        pq, model = st
+        pq, model = st[0], st[1]
         heap, pos = pq._verif_state()
         viols = []
         # diagnostic invariants of the internal state (they explain model disagreements)
@@ -142,6 +160,14 @@ class PQMachine:
                 viols.append(self._v("heap-order", f"heap order broken at {i}: {heap}"))
         if len(pos) != len(heap):
             viols.append(self._v("positions", f"positions has {len(pos)} entries, heap {len(heap)}"))
+        if viols:
+            # the internal shape looks wrong: decide by observable behaviour (a different but correct
+            # layout drains correctly and raises no alarm)
+            msg = self.drain(st[2])
+            if msg:
+                v = self._v("drain-order", msg + f" after history {st[2]}")
+                v["instance"] = {"history": list(st[2]) + [("drain",)]}
+                viols.append(v)
         return viols
 
     def outcome(self, st, op):
@@ -234,6 +260,7 @@ def machines(tier):
         PQMachine([5, -1, 7], [0, 1, (0, 1), (1,), (1, 0)], "pq-mixed-3x5"),
         # deep heaps (three levels below the root): sift-down / sift-up paths through inner nodes
         PQMachine(list(range(7)), [0, 1, 2], "pq-deep-7x3-depth2", prefill=7, max_depth=2, no_push=True),
+        PQMachine(list(range(9)), [0, 1, 2], "pq-deep-9x3-depth1", prefill=9, max_depth=1, no_push=True),
         CFMachine([0, 1, 2, 3, 4], "cf-int-5"),
         CFMachine([7, 3, 9, 1], "cf-unsorted-4"),
         CFMachine(["b", "a", "d", "c"], "cf-str-4"),
@@ -304,6 +331,9 @@ def replay(v):
     hist = [tuple(op) if not isinstance(op, tuple) else op for op in v["instance"]["history"]]
     hist = [tuple(tuple(x) if isinstance(x, list) else x for x in op) for op in hist]
     for m in machines("thorough"):
+        if m.name == name and hist and hist[-1] == ("drain",):
+            msg = m.drain(hist[:-1])
+            return [{"clause": "pq:drain-order", "detail": msg}] if msg else []
         if m.name == name:
             st = m.replay(tuple(hist[:-1]))
             out = m.step(st, hist[-1]) + m.invariants(st)
